@@ -18,7 +18,9 @@ driver).  What is modelled statement by statement is GEMSEO's own logic:
 * `normalize_vect` / `unnormalize_vect` (`use_dist` false: the design-space map; true:
   split by sizes, geometric map for the whole vector, CDF / inverse CDF for the uncertain
   variables, "missing names" taken from the geometric result, concatenation in variable order);
-  `transform_vect` / `untransform_vect`;
+  `transform_vect` / `untransform_vect`; the same calls with the `out` argument over a store of
+  mutable arrays (`dsVectOut`, `distVectOut`, `PS.normalizeVectOut`, ...: `out` absent, another
+  array or the input array itself);
 * `compute_samples(as_dict=True)` splitting, `extract_uncertain_space`, `to_design_space`.
 
 Code anchored: src/gemseo/algos/parameter_space.py, src/gemseo/utils/data_conversion.py,
